@@ -88,6 +88,8 @@ type vfWorld struct {
 	newIDs      []*url.URL
 	idKind      int
 	missingReq  bool
+	smallWorld  bool // restrict the stored/remote kind menus (body-mutation harnesses)
+	hostile     bool // stored / remote documents may be incomplete or ill-typed (C11)
 	distinctPool []string
 	membersOf   func(col string) []*url.URL // collection members as a function of the collection id
 	likesKind   int
